@@ -49,7 +49,7 @@ type c04Gen struct {
 
 func generateC04(c *core.Ctx, maxDist, emitDist int) (*c04Gen, error) {
 	mod := "MCgen_GossipValidate"
-	cfg := "CONSTANTS\n" + c04Consts() + fmt.Sprintf(" MCTypes = {\"shares\", \"keys\"}\n MaxDist = %d\n EmitDist = %d\n Emit = TRUE\n", maxDist, emitDist) +
+	cfg := "CONSTANTS\n" + c04Consts() + fmt.Sprintf(" MCFlavours = {\"core\", \"gnosis\", \"service\"}\n MCTypes = {\"shares\", \"keys\"}\n MaxDist = %d\n EmitDist = %d\n Emit = TRUE\n", maxDist, emitDist) +
 		"SPECIFICATION Spec\nINVARIANT EmitInv\nINVARIANT Design\nCHECK_DEADLOCK FALSE\n"
 	workers := c.Workers
 	if workers > 8 {
@@ -152,13 +152,35 @@ func runItems(ctx context.Context, w *World, st *States, items []item, workers i
 		wg.Add(1)
 		go func() {
 			defer wg.Done()
-			node, err := NewCoreNode(ctx, w)
-			if err != nil {
-				fail(err)
-				return
+			nodes := map[string]*Node{}
+			defer func() {
+				for _, n := range nodes {
+					n.Close()
+				}
+			}()
+			nodeOf := func(fl string) (*Node, error) {
+				if n, ok := nodes[fl]; ok {
+					return n, nil
+				}
+				n, err := NewNode(ctx, w, fl)
+				if err == nil {
+					nodes[fl] = n
+				}
+				return n, err
 			}
-			defer func() { node.Close() }()
+			renew := func(fl string) (*Node, error) {
+				if n, ok := nodes[fl]; ok {
+					n.Close()
+					delete(nodes, fl)
+				}
+				return nodeOf(fl)
+			}
 			for j := range ch {
+				node, err := nodeOf(j.k.Fl)
+				if err != nil {
+					fail(err)
+					return
+				}
 				db, err := st.Get(ctx, j.k)
 				if err != nil {
 					fail(err)
@@ -173,8 +195,7 @@ func runItems(ctx context.Context, w *World, st *States, items []item, workers i
 					details[i] = o.Detail
 					if o.V == "timeout" || o.Herr == "timeout" || o.V == "panic" || o.Herr == "panic" {
 						// the pool may have lost a connection to the abandoned / crashed call: new node
-						node.Close()
-						node, err = NewCoreNode(ctx, w)
+						node, err = renew(j.k.Fl)
 						if err != nil {
 							fail(err)
 							return
@@ -187,8 +208,7 @@ func runItems(ctx context.Context, w *World, st *States, items []item, workers i
 							node.Wd = 0
 							o.Detail = "(confirmation run) " + o.Detail
 							lines[i].O, details[i] = o, o.Detail
-							node.Close()
-							if node, err = NewCoreNode(ctx, w); err != nil {
+							if node, err = renew(j.k.Fl); err != nil {
 								fail(err)
 								return
 							}
@@ -363,6 +383,9 @@ func (r *ReplayCC) concrete() *Concrete {
 	if cc.Case.M.Entries == nil {
 		cc.Case.M.Entries = []Entry{}
 	}
+	if cc.Case.Fl == "" {
+		cc.Case.Fl = "core"
+	}
 	return cc
 }
 
@@ -422,7 +445,7 @@ func CheckC04(c *core.Ctx) int {
 		return replayC04(c)
 	}
 	ctx := context.Background()
-	maxDist, emitDist, nRandom := 3, 2, 4000
+	maxDist, emitDist, nRandom := 3, 2, 3000
 	if c.Thorough() {
 		maxDist, emitDist, nRandom = 6, 4, 100000
 	}
